@@ -269,3 +269,20 @@ package annotation
 //@ func Data.ServeHTTP
 //@   prop C11 C20
 //@   structural
+
+// ---- goroutine/parent races on captured variables (C11), structural contracts ----
+// Each function below starts goroutines; the only obligation generated for it is that no local variable
+// written by a goroutine it starts is accessed by the function afterwards (#gorace...). The bodies are not
+// executed symbolically.
+//@ func Data.write_denorms
+//@   prop C11
+//@   structural
+
+//@ func Data.write_denorms_with_check
+//@   prop C11
+//@   structural
+
+//@ func Data.scan
+//@   prop C11
+//@   structural
+
